@@ -276,7 +276,18 @@ def realise_simple(rec, herr_active):
     if f["kind"] != "Std14":
         d["FirstChar"] = byte(f["fc"])
         d["LastChar"] = byte(f["fc"]) + len(f["widths"]) - 1
-        d["Widths"] = list(f["widths"])
+        wf = f.get("wform", "direct")
+        ws = list(f["widths"])
+        if wf in ("someref", "allref"):
+            for i, w in enumerate(f["widths"]):
+                if wf == "allref" or i % 2 == 0:
+                    extra[110 + i] = w                    # the number as an indirect object of its own
+                    ws[i] = Ref(110 + i)
+        if wf == "arrayref":
+            extra[109] = ws
+            d["Widths"] = Ref(109)
+        else:
+            d["Widths"] = ws
         if f["mw"] >= 0 or f["file"] or f["kind"] != "Type3":
             desc = {"Type": Name("FontDescriptor"), "FontName": Name(basefont), "Flags": 32,
                     "FontBBox": [0, -200, 1000, 800], "ItalicAngle": 0, "Ascent": 800, "Descent": -200, "StemV": 80}
@@ -533,9 +544,9 @@ def direction_a_fonts(ck, dev, jobs, futures, ppool):
 
 
 def font_summary(f):
-    return "%s%s enc=%s/%s diff=%s tu=%s ent=%s fc=%s widths=%s mw=%s fm=%s" % (
+    return "%s%s enc=%s/%s diff=%s tu=%s ent=%s fc=%s widths=%s(%s) mw=%s fm=%s" % (
         f["kind"], "+FontFile(StandardEncoding)" if f.get("std") else ("+FontFile" if f["file"] else ""), f["enc"], f["base"], [x["v"] if x["t"] == "int" else x["g"] for x in f["diff"]], f["tu"],
-        [(e["c"], e["g"]) for e in f["ent"]], f["fc"], f["widths"], f["mw"], f["fm"])
+        [(e["c"], e["g"]) for e in f["ent"]], f["fc"], f["widths"], f.get("wform", "direct"), f["mw"], f["fm"])
 
 
 # =============================================================================================== extended coverage: CFF
